@@ -8,7 +8,12 @@ From Yv Require Export Common.Base C13.Model C13.Spec.
 Definition ksnap := (list nat * bool)%type.
 
 Definition cstate_code (c : child) : nat :=
-  match cs c with Running _ => 0 | Zombie => 1 | Reaped => 2 end.
+  match cs c with
+  | Running _ => if chg c then 4 else 0
+  | Zombie => 1
+  | Reaped => 2
+  | Stopped _ => if chg c then 5 else 3
+  end.
 
 Definition ksnap_of (k : kern) : ksnap := (map cstate_code (kids k), pending k).
 
@@ -18,6 +23,7 @@ Definition ksnap_eqb (a b : ksnap) : bool :=
 Definition wres_eqb (a b : wres) : bool :=
   match a, b with
   | WSome i x, WSome j y => (i =? j) && N.eqb x y
+  | WStop i, WStop j | WCont i, WCont j => i =? j
   | WNone, WNone | WEchild, WEchild => true
   | _, _ => false
   end.
@@ -36,7 +42,7 @@ Definition k_exit (k : kern) (i : nat) : option kern :=
   | Some c =>
       match cs c with
       | Running _ =>
-          Some (raise_chld (set_kids k (upd (kids k) i (mkChild Zombie (code c) (reaps c)))))
+          Some (raise_chld (set_kids k (upd (kids k) i (mkChild Zombie (code c) (reaps c) false))))
       | _ => None
       end
   | None => None
@@ -45,7 +51,8 @@ Definition k_exit (k : kern) (i : nat) : option kern :=
 (* None: the operation is outside the domain (exit of a child that is not running) *)
 Definition kstep (k : kern) (o : kop) : option (kobs * kern) :=
   match o with
-  | KFork w st => let (k', i) := k_fork k w st in Some (BPid i, k')
+  | KFork _ st => let (k', i) := k_fork k [] st in Some (BPid i, k')
+  | KSig sg i => Some (BUnit, k_signal k sg i)
   | KExit i => match k_exit k i with Some k' => Some (BUnit, k') | None => None end
   | KWait t => let (r, k') := kwait k t in Some (BWait r, k')
   | KBlock => Some (BUnit, k_block k)
@@ -117,6 +124,19 @@ Fixpoint sim (fuel : nat) (kind : nat) (tick : nat) (s : state) : option state :
            end
   end.
 
+(* scripts without SIGSTOP: no child can ever be stopped, and every scheduler
+   reaches the end; with stops a scheduler of the model (which has no notion
+   of time) may run into a child that stays stopped *)
+Definition act_quiet (a : cact) : bool := match a with AKill SStop _ => false | _ => true end.
+Definition script_quiet (p : list cact) : bool := forallb act_quiet p.
+Definition cmd_quiet (c : cmd) : bool :=
+  match c with
+  | CAsync p _ => script_quiet p
+  | CPipe l _ => forallb (fun x => script_quiet (fst x)) l
+  | _ => true
+  end.
+Definition prog_quiet (p : list cmd) : bool := forallb cmd_quiet p.
+
 Definition model_result (p : list cmd) (kind : nat) : option (list (N * option nat) * N) :=
   match sim (S (run_bound p)) kind 0 (init p) with
   | Some s => Some (trace s, status s)
@@ -133,7 +153,7 @@ Definition run_script (p : list cmd) (o : sobs) : verdict :=
     let agrees kind :=
       match model_result p kind with
       | Some (t, st) => trace_eqb t (so_trace o) && Z.eqb (Z.of_N st) (so_status o)
-      | None => false
+      | None => negb (prog_quiet p)
       end in
     if agrees 0 && agrees 1 && agrees 2 && agrees 3 then 0%N else 1%N.
 
